@@ -251,7 +251,6 @@ def _validate_types(nodes: dict[str, HyperNode], nx_graph: nx.DiGraph) -> None:
         for value_name in value_names:
             # Get types using universal capability methods
             output_type = source_node.get_output_type(value_name)
-            input_type = target_node.get_input_type(value_name)
 
             # Check for missing annotations
             if output_type is None:
@@ -262,24 +261,35 @@ def _validate_types(nodes: dict[str, HyperNode], nx_graph: nx.DiGraph) -> None:
                     f"  Add type annotation: def {source_name}(...) -> ReturnType"
                 )
 
-            if input_type is None:
-                raise GraphConfigError(
-                    f"Missing type annotation in strict_types mode\n\n"
-                    f"  -> Node '{target_name}' parameter '{value_name}' has no type annotation\n\n"
-                    f"How to fix:\n"
-                    f"  Add type annotation: def {target_name}({value_name}: YourType) -> ReturnType"
-                )
+            # A nested graph may hold several consumers of the value: all of them count
+            if hasattr(target_node, "get_input_types"):
+                input_types = target_node.get_input_types(value_name) or [None]
+            else:
+                input_types = [target_node.get_input_type(value_name)]
+            for input_type in input_types:
+                _check_edge_types(source_name, target_name, value_name, output_type, input_type)
 
-            # Check type compatibility
-            if not is_type_compatible(output_type, input_type):
-                raise GraphConfigError(
-                    f"Type mismatch between nodes\n\n"
-                    f"  -> Node '{source_name}' output '{value_name}' has type: {output_type}\n"
-                    f"  -> Node '{target_name}' input '{value_name}' expects type: {input_type}\n\n"
-                    f"How to fix:\n"
-                    f"  Either change the type annotation on one of the nodes, or add a\n"
-                    f"  conversion node between them."
-                )
+
+def _check_edge_types(source_name: str, target_name: str, value_name: str, output_type: Any, input_type: Any) -> None:
+    """Compare one producer type with one consumer type (strict_types)."""
+    if input_type is None:
+        raise GraphConfigError(
+            f"Missing type annotation in strict_types mode\n\n"
+            f"  -> Node '{target_name}' parameter '{value_name}' has no type annotation\n\n"
+            f"How to fix:\n"
+            f"  Add type annotation: def {target_name}({value_name}: YourType) -> ReturnType"
+        )
+
+    # Check type compatibility
+    if not is_type_compatible(output_type, input_type):
+        raise GraphConfigError(
+            f"Type mismatch between nodes\n\n"
+            f"  -> Node '{source_name}' output '{value_name}' has type: {output_type}\n"
+            f"  -> Node '{target_name}' input '{value_name}' expects type: {input_type}\n\n"
+            f"How to fix:\n"
+            f"  Either change the type annotation on one of the nodes, or add a\n"
+            f"  conversion node between them."
+        )
 
 
 # =============================================================================
